@@ -438,3 +438,101 @@ def build_wiring(ctx, repo):
 
 
 C10 = [mvar_registry, build_wiring, axis_maps]
+
+
+# ---------------------------------------------------------------------------
+# VGATE: data written only in a newer document format forces that format
+# ---------------------------------------------------------------------------
+V5_FEATURES = {"values", "axisOrdering", "axisLabels", "locationLabels", "localisedFamilyName", "variableFonts", "locationLabel", "userLocation"}
+V51_FEATURES = {"axisMappings"}
+V4_ALIASES = {"designLocation": "location"}  # designLocation is the v5 name of the same field
+
+
+def version_gate(ctx, repo):
+    ctx.rule("VGATE", "designspace writer: every descriptor field that is only written on the format >= 5.0 arm of a version test is one of the conditions that raise the effective format to 5.0 (otherwise a 4.x document silently drops it); the trigger list covers the version 5.0 / 5.1 feature set", floor=4)
+    mod = repo.mod("designspaceLib/__init__.py")
+    eff = mod.func("BaseDocWriter._getEffectiveFormatTuple")
+    trig5, trig51 = set(), set()
+    for n in walk_no_nested(eff.node):
+        if isinstance(n, ast.If):
+            sets = [norm(b) for b in ast.walk(n) if isinstance(b, ast.Assign) and norm(b.targets[0]) == "minVersion"]
+            names = {a.attr for a in ast.walk(n.test) if isinstance(a, ast.Attribute)} | {try_fold(c.args[1]) for c in calls_in(n.test) if call_name(c) in ("hasattr", "getattr") and len(c.args) >= 2}
+            names.discard("documentObject")
+            if any("(5, 0)" in s for s in sets):
+                trig5 |= names
+            elif any("(5, 1)" in s for s in sets):
+                trig51 |= names
+    ok = V5_FEATURES <= trig5
+    ctx.ob("VGATE", eff.where, f"format 5.0 triggers {sorted(x for x in trig5 if x in V5_FEATURES)}", ok, "" if ok else f"missing: {sorted(V5_FEATURES - trig5)}")
+    ok = V51_FEATURES <= trig51
+    ctx.ob("VGATE", eff.where, f"format 5.1 triggers {sorted(trig51)}", ok, "" if ok else f"missing: {sorted(V51_FEATURES - trig51)}")
+    # the value must be stored before anything is written
+    ne = 0
+    for q, f in sorted(mod.funcs.items()):
+        if not q.startswith("BaseDocWriter."):
+            continue
+        for n in walk_no_nested(f.node):
+            if not (isinstance(n, ast.If) and isinstance(n.test, ast.Compare) and norm(n.test.left) == "self.effectiveFormatTuple"):
+                continue
+            lim = try_fold(n.test.comparators[0])
+            op = n.test.ops[0]
+            if lim != (5, 0) or not isinstance(op, (ast.GtE, ast.Lt)):
+                continue
+            new_arm, old_arm = (n.body, n.orelse) if isinstance(op, ast.GtE) else (n.orelse, n.body)
+            objs = {a.arg for a in f.node.args.args if a.arg.endswith("Object")}
+
+            def reads(stmts):
+                out = set()
+                for st in stmts:
+                    for a in ast.walk(st):
+                        if isinstance(a, ast.Attribute) and isinstance(a.value, ast.Name) and a.value.id in objs:
+                            out.add(V4_ALIASES.get(a.attr, a.attr))
+                return out
+
+            only_new = reads(new_arm) - reads(old_arm)
+            if not new_arm:
+                continue
+            ne += 1
+            ok = only_new <= trig5
+            ctx.ob("VGATE", f.where, f"fields written only when format >= 5.0: {sorted(only_new)}", ok, "" if ok else f"{sorted(only_new - trig5)} do not raise the format: written documents in 4.x lose them")
+    if ne < 2:
+        raise AnalysisError("VGATE: fewer than 2 version-gated writer arms found")
+
+
+C19.append(version_gate)
+
+
+# ---------------------------------------------------------------------------
+# CACHE-INV: VariationModel's sub-model memo is dropped whenever its inputs change
+# ---------------------------------------------------------------------------
+def submodel_cache(ctx, repo):
+    ctx.rule("CACHE-INV", "VariationModel.getSubModel memoises sub-models built from the model's own fields; every other method that reassigns one of those fields also resets the memo (a stale sub-model applies the old master order to the new one)", floor=2)
+    mod = repo.mod("varLib/models.py")
+    g = mod.func("VariationModel.getSubModel")
+    memo = None
+    for n in ast.walk(g.node):
+        if isinstance(n, ast.Assign) and isinstance(n.targets[0], ast.Subscript) and norm(n.targets[0].value).startswith("self._"):
+            memo = n.targets[0].value.attr
+    if memo is None:
+        raise AnalysisError("VariationModel.getSubModel no longer fills a memo dict")
+    deps = {n.attr for n in ast.walk(g.node) if isinstance(n, ast.Attribute) and norm(n.value) == "self" and isinstance(n.ctx, ast.Load)} - {memo}
+    deps = {d for d in deps if ("VariationModel." + d) not in mod.funcs}
+    init = mod.func("VariationModel.__init__")
+    ok = any(isinstance(st, ast.Assign) and norm(st.targets[0]) == f"self.{memo}" and norm(st.value) == "{}" for st in walk_no_nested(init.node))
+    ctx.ob("CACHE-INV", init.where, f"self.{memo} = {{}} (memo over fields {sorted(deps)})", ok)
+    n = 0
+    for q, f in sorted(mod.funcs.items()):
+        if not q.startswith("VariationModel.") or q in ("VariationModel.__init__", "VariationModel.getSubModel"):
+            continue
+        stores = {st.targets[0].attr: st for st in walk_no_nested(f.node) if isinstance(st, ast.Assign) and isinstance(st.targets[0], ast.Attribute) and norm(st.targets[0].value) == "self"}
+        hit = sorted(set(stores) & deps)
+        if not hit:
+            continue
+        n += 1
+        reset = (memo in stores and norm(stores[memo].value) == "{}" and not list(guard_conditions(stores[memo]))) or any(norm(c.func) == f"self.{memo}.clear" for c in calls_in(f.node))
+        ctx.ob("CACHE-INV", f.where, f"reassigns {hit}: memo reset", reset, "" if reset else f"self.{memo} keeps sub-models computed from the previous {hit}")
+    if n == 0:
+        raise AnalysisError("CACHE-INV: no mutator of the memo's inputs found (reorderMasters vanished?)")
+
+
+C10.append(submodel_cache)
